@@ -7,3 +7,9 @@ NEXT Next
 CHECK_DEADLOCK FALSE
 VIEW View
 ACTION_CONSTRAINT Export
+INVARIANT ReadsAgree
+PROPERTY HeaderEqualsView
+PROPERTY ViewValue
+PROPERTY OpOutcome
+PROPERTY RereadEqualsView
+PROPERTY HeaderIffNonEmpty
